@@ -132,3 +132,48 @@ func (o Outcome) Detail() string {
 	}
 	return "err " + o.ErrKind + " " + o.Msg
 }
+
+// ParseTree parses with the tree hook on and returns the dump of the tree that was built
+// (empty when Parse failed).
+func ParseTree(path string, cfg *jsonpath.Config) (Parsed, Outcome, string) {
+	jsonpath.VerifEnable(true)
+	f, o := SafeParse(path, cfg)
+	tree := jsonpath.VerifLastTree()
+	jsonpath.VerifEnable(false)
+	if f == nil {
+		return nil, o, ""
+	}
+	return f, o, tree
+}
+
+// ImplExpect renders an outcome the way jpv-impl answers `run` (errors with their text).
+func (o Outcome) ImplExpect(withText bool) string {
+	if o.OK {
+		s := "(q ok"
+		for _, v := range o.Vals {
+			s += " " + ResSexp(v)
+		}
+		return s + ")"
+	}
+	if !withText {
+		return "(q err)"
+	}
+	switch o.ErrKind {
+	case "member":
+		return "(q (err member " + SexpString(o.ErrText) + "))"
+	case "type":
+		return "(q (err type " + SexpString(o.ErrText) + " " + SexpString(o.Expected) + " " + SexpString(o.Found) + "))"
+	case "func":
+		return "(q (err func " + SexpString(o.ErrText) + "))"
+	}
+	return "(q (abnormal " + o.ErrKind + "))"
+}
+
+// ResSexp prints one result: a plain value, or an accessor as `(acc V set?)` is handled by
+// the accessor properties; here accessors print as their current value.
+func ResSexp(v interface{}) string {
+	if a, ok := v.(jsonpath.Accessor); ok {
+		return ValSexp(a.Get())
+	}
+	return ValSexp(v)
+}
